@@ -52,3 +52,155 @@ def run_c04(tier):
     finish(prop, tier, t0, findings, cov, assumptions=[
         "scope as stated by the property: linear binders, no redundant slots (decided per state by the specification's NonRed)",
         "instances are computed by Terms.Inst in TLC (ASSUME InstancesAgree), representation by SlottedCC's closure"])
+
+
+# ------------------------------------------------------------------------------------------------
+# recorded rewriting runs (language A) judged by TraceRewrite.tla: C03, C14 (constant folding), C15
+# ------------------------------------------------------------------------------------------------
+import re, importlib.util
+
+
+def _rules_for(p, tag):
+    spec = importlib.util.spec_from_file_location("rules_A", os.path.join(UNIV, "rules_A.py"))
+    m = importlib.util.module_from_spec(spec)
+    sys.path.insert(0, UNIV)
+    spec.loader.exec_module(m)
+    d = os.path.join(OUT, "tlc")
+    os.makedirs(d, exist_ok=True)
+    path = os.path.join(d, "%s_rules_p%d.json" % (tag, p))
+    data = {"p": p, "rules": m.rules(p), "subpool": [m.parse(s, m.SIG_A) for s in m.SUBPOOL]}
+    json.dump(data, open(path, "w"))
+    return path, data
+
+
+def numtable(path):
+    lits = set(re.findall(r'"op":"(\d+)"', open(path).read()))
+    lits |= {str(i) for i in range(10)}
+    return {k: int(k) for k in sorted(lits, key=int)}
+
+
+def model_check_rules(p, tag):
+    path, data = _rules_for(p, tag)
+    cfg = open(os.path.join(SPEC, "MC_Model.cfg")).read()
+    rules = [{"name": r["name"], "l": r["l"], "r": r["r"], "cond": r["cond"]} for r in data["rules"]]
+    logp, st = run_tlc_root("%s_model_p%d" % (tag, p), "MC_Model",
+                            {"MCP": p, "MCRules": rules, "MCSubPool": tla_set(data["subpool"]),
+                             "MCNumTable": {str(i): i for i in range(10)}}, cfg, timeout=3000)
+    require_tlc_ok(st, logp, "MC_Model p=%d (a rule of the pool is NOT valid in the model: fix the pool)" % p)
+    return st, len(rules)
+
+
+def rw_trace(tier, tag, p=3, runs=None):
+    """record rewriting runs with the real library and validate them with TLC; returns
+    (bad obligations, panic findings, tlc stats, recorder summary, trace lines)"""
+    path, _ = _rules_for(p, tag)
+    runs = runs or (600 if tier == "quick" else 6000)
+    trace = os.path.join(OUT, "tlc", "%s_rw_p%d.ndjson" % (tag, p))
+    recs = jsonl(run_bin("default", "rw_record", [path, trace, runs]))
+    summ = [r for r in recs if r["kind"] == "summary"][0]
+    panics = [r for r in recs if r["kind"] == "finding"]
+    cfg = open(os.path.join(SPEC, "TraceRewrite.cfg")).read()
+    logp, st = run_tlc_root("%s_rwtrace_p%d" % (tag, p), "TraceRewrite", {"TraceP": p, "TraceNumTable": numtable(trace)}, cfg,
+                            workers=1, env={"VERIF_TRACE": trace}, xss=True, deque=True, timeout=3000)
+    if not st["ok"]:
+        sys.stderr.write(open(logp, errors="replace").read()[-3000:])
+        raise ToolError("TraceRewrite did not consume the whole trace")
+    lines = open(trace).read().splitlines()
+    bad = list(tlcout.tagged_lines(logp, "RWBAD"))
+    return bad, panics, st, summ, lines
+
+
+def bad_to_findings(bad, lines, prop):
+    out = []
+    for b in bad:
+        if b["prop"] != prop:
+            continue
+        # the run's configuration = the last reset event before the failing one
+        i = b["i"] - 1
+        j = i
+        while j > 0 and json.loads(lines[j])["ev"] != "reset":
+            j -= 1
+        ev = json.loads(lines[i])
+        if ev["ev"] == "dump":
+            ev = {"ev": "dump", "nclasses": ev["nclasses"], "datum": ev["datum"]}
+        out.append({"kind": "finding", "prop": prop, "what": b["what"], "site": "",
+                    "detail": {"event_no": b["i"], "event": ev, "run": json.loads(lines[j])}})
+    return out
+
+
+def run_c03(tier):
+    t0 = time.time()
+    prop = "C03"
+    ps = [3] if tier == "quick" else [3, 5]
+    mstats = {}
+    for p in ps + ([] if tier == "quick" else [7]):
+        mstats[p], nrules = model_check_rules(p, prop)
+    findings, tstats, summs, nlines, sample = [], {}, [], 0, None
+    for p in ps:
+        bad, panics, st, summ, lines = rw_trace(tier, prop, p)
+        findings += bad_to_findings(bad, lines, prop)
+        tstats[p] = st
+        summs.append(summ)
+        nlines += len(lines)
+        cls = [json.loads(l) for l in lines if '"ev":"class"' in l]
+        sample = sample or next((c for c in cls if len(c["members"]) >= 3), cls[0] if cls else None)
+        ncls = len(cls)
+        nontriv = sum(1 for c in cls if len(c["members"]) >= 2)
+    cov = {"states": sum(s["distinct"] for s in mstats.values()) + sum(s["distinct"] for s in tstats.values()),
+           "transitions": sum(s["generated"] for s in mstats.values()) + sum(s["generated"] for s in tstats.values()),
+           "traces_validated_against_impl": sum(s["runs"] for s in summs),
+           "samples": [{"class_slots": sample["slots"], "members": sample["members"][:3]}] if sample else [{"none": True}],
+           "evaluations": nlines, "distinct_nontrivial": nontriv,
+           "rule": "MC_Model.tla: each of the %d rules is valid for ALL admissible substitutions over a 10-term pool and all environments over "
+                   "GF(p), p in %s; then recorded runs (manual apply_rewrites / Runner / run_eqsat, random rule subsets, both SubstMethods) are "
+                   "dumped class by class and TraceRewrite.tla evaluates every member under ALL environments: one value per assignment of the "
+                   "class slots; non-trivial = classes with >= 2 members" % (nrules, list(mstats.keys())),
+           "exhaustive": False, "tlc_model": {str(k): v for k, v in mstats.items()}, "tlc_trace": {str(k): v for k, v in tstats.items()},
+           "recorder": summs, "class_events": ncls, "panics_attributed_to_C08": sum(s["panics"] for s in summs)}
+    finish(prop, tier, t0, findings, cov, assumptions=[
+        "members are e-nodes with children replaced by harness-built representative terms (enodes() only); classes whose members exceed "
+        "14 nodes or 5 free names are skipped by the recorder (counted in the trace)",
+        "node budget <= 200 e-nodes per run"])
+
+
+def run_c15(tier):
+    t0 = time.time()
+    prop = "C15"
+    import subprocess
+    mst = {}
+    for cfgname in ["MC_Runner", "MC_Eqsat"]:
+        logp = os.path.join(OUT, "tlc", "C15_%s.log" % cfgname)
+        os.makedirs(os.path.dirname(logp), exist_ok=True)
+        with open(logp, "w") as f:
+            subprocess.run(["timeout", "600", "tlc", "-workers", "4", "-metadir", os.path.join(OUT, "tlc", "C15_meta_" + cfgname), "-cleanup",
+                            "-noGenerateSpecTE", "-config", cfgname + ".cfg", "Runner.tla"], cwd=SPEC, stdout=f, stderr=subprocess.STDOUT)
+        st = tlcout.stats(logp)
+        require_tlc_ok(st, logp, cfgname)
+        mst[cfgname] = st
+    bad, panics, st, summ, lines = rw_trace(tier, prop, 3, runs=(900 if tier == "quick" else 9000))
+    findings = bad_to_findings(bad, lines, prop)
+    evs = [json.loads(l) for l in lines]
+    stops = [e for e in evs if e["ev"] == "stop"]
+    reasons = {}
+    for e in stops:
+        reasons[e["reason"]] = reasons.get(e["reason"], 0) + 1
+    if len(reasons) < 3:
+        raise ToolError("recorder exercised only stop reasons %s: vacuous" % reasons)
+    cov = {"states": sum(s["distinct"] for s in mst.values()) + st["distinct"],
+           "transitions": sum(s["generated"] for s in mst.values()) + st["generated"],
+           "traces_validated_against_impl": len(stops) + sum(1 for e in evs if e["ev"] == "rewrite"),
+           "samples": [[e for e in evs[:40] if e["ev"] in ("reset", "iter", "stop")][:4]],
+           "evaluations": sum(1 for e in evs if e["ev"] in ("iter", "stop", "rewrite")),
+           "distinct_nontrivial": sum(1 for e in evs if e["ev"] == "iter" and e["fp_changed"]),
+           "rule": "Runner.tla model-checked (bounded-termination, truth of limit reasons, liveness Terminates) for Runner::run and run_eqsat; "
+                   "recorded runs with iter_limit 0..3, node limits 30/80/200/10000, hooks failing at iteration 0..2; every iteration's stop "
+                   "decision must be one the specification allows given the INDEPENDENT fingerprint (fp_changed => apply_rewrites returned true), "
+                   "reports checked, saturation re-checked; non-trivial = iterations that changed the fingerprint",
+           "stop_reasons_seen": reasons, "tlc_model": mst, "tlc_trace": st, "recorder": summ}
+    finish(prop, tier, t0, findings, cov, assumptions=["time limits are not exercised (time_limit is set far away)"])
+
+
+def c14_constfold(tier):
+    """C14 part 2: constant folding with its modify hook on recorded rewriting runs"""
+    bad, panics, st, summ, lines = rw_trace(tier, "C14", 3)
+    return bad_to_findings(bad, lines, "C14"), st, summ, sum(1 for l in lines if '"ev":"dump"' in l)
